@@ -102,7 +102,9 @@ def ob_late_exit(report):
 
         def second(q, ret):
             n1 = len(effects(Result(q, None, 'return')))
-            ex.run_fn(rm, ex.adapt_args(rm, [selfp, pid, z3.BitVec(f'sid({oldname})', 64), Sym('reason', 'types::DisconnectReason')], q), q, 0,
+            rm_args = e2.bind_args(rm, 'crates/anemo/src/network/connection_manager.rs', [selfp], [(r'PeerId', pid), (r'^(usize|u64)$', z3.BitVec(f'sid({oldname})', 64)),
+                                                                                                    (r'DisconnectReason', Sym('reason', 'types::DisconnectReason'))])
+            ex.run_fn(rm, ex.adapt_args(rm, rm_args, q), q, 0,
                       lambda q2, r2: finals.append((n1, q2)), 'late')
         ex.run_fn(add, ex.adapt_args(add, [selfp, Ptr(('H', 'own', 'PeerId')), Sym('new', 'connection::Connection')], p), p, 0, second, 'add')
         distinct = z3.BitVec(f'sid({oldname})', 64) != z3.BitVec('sid(new)', 64)   # quinn stable ids are unique per connection
